@@ -1775,3 +1775,44 @@ BENIGN = [
         {"file": RR, "old": '        self.register("photon_desorption_option", (f"opt_uvd{group}", 1.0, vt.param))\n        self.register("H2_desorption_option", (f"opt_h2d{group}", 1.0, vt.param))\n', "new": '        self._register_rows(self._switches, group, vt.param)\n'},
         {"file": RR, "old": '    model = "rr07"\n', "new": '    model = "rr07"\n    _switches = {"photon_desorption_option": ("opt_uvd", 1.0), "H2_desorption_option": ("opt_h2d", 1.0)}\n\n    def _register_rows(self, rows, suffix, kind):\n        for name, (stem, default) in rows.items():\n            self.register(name, (f"{stem}{suffix}", default, kind))\n'}]},
 ]
+
+# ---- wave 4: everyday spellings of the renderer's window text / the merge of the components' mappings / table-driven registrations
+_LT = '        ltranges = [f"Tgas>={r.temp_min}" if r.temp_min > 0 else "" for r in reactions]\n'
+_UT = '        utranges = [f"Tgas<{r.temp_max}" if r.temp_max > 0 else "" for r in reactions]\n'
+_AR = "    def _assign_rates(\n"
+_COLLECT = '    variables = OrderedDict()\n    for comp in complist:\n        var_dict = getattr(comp, var_type)\n        for key, value in var_dict.items():\n            variables[key] = value\n    return variables.items()\n'
+BENIGN += [
+    {"name": "renderer-window-helper-with-guard-clause", "edits": [
+        {"file": TLOADER, "old": _LT, "new": "        ltranges = [self._lower(r) for r in reactions]\n"},
+        {"file": TLOADER, "old": _AR, "new": '    @staticmethod\n    def _lower(r):\n        lo = r.temp_min\n        if lo <= 0:\n            return ""\n        return f"Tgas>={lo}"\n\n' + _AR}]},
+    {"name": "renderer-window-formatted-by-helper-guarded-by-caller", "edits": [
+        {"file": TLOADER, "old": _LT, "new": '        ltranges = [self._bound(">=", r.temp_min) if r.temp_min > 0 else "" for r in reactions]\n'},
+        {"file": TLOADER, "old": _UT, "new": '        utranges = [self._bound("<", r.temp_max) if r.temp_max > 0 else "" for r in reactions]\n'},
+        {"file": TLOADER, "old": _AR, "new": '    def _bound(self, op, value):\n        return f"Tgas{op}{value}"\n\n' + _AR}]},
+    {"name": "renderer-window-text-as-module-constant", "edits": [
+        {"file": TLOADER, "old": _LT, "new": '        ltranges = [_LOWER.format(r.temp_min) if r.temp_min > 0 else "" for r in reactions]\n'},
+        {"file": TLOADER, "old": "class TemplateLoader:\n", "new": '_LOWER = "Tgas>={}"\n\n\nclass TemplateLoader:\n'}]},
+    {"name": "renderer-window-bounds-appended-in-static-helper", "edits": [
+        {"file": TLOADER, "old": _LT + _UT, "new": ""},
+        {"file": TLOADER, "old": '        tranges = [\n            "".join([lt, " && " if lt and ut else "", ut])\n            for lt, ut in zip(ltranges, utranges)\n        ]\n', "new": "        tranges = [self._window(reac) for reac in reactions]\n"},
+        {"file": TLOADER, "old": _AR, "new": '    @staticmethod\n    def _window(reaction):\n        bounds = []\n        if reaction.temp_min > 0:\n            bounds.append(f"Tgas>={reaction.temp_min}")\n        if reaction.temp_max > 0:\n            bounds.append(f"Tgas<{reaction.temp_max}")\n        return " && ".join(bounds)\n\n' + _AR}]},
+    {"name": "thermal-process-window-chained-named-constant", "edits": [
+        {"file": TPROC, "old": "        self.temp_min = -1.0\n        self.temp_max = -1.0\n", "new": "        self.temp_min = self.temp_max = NO_LIMIT\n"},
+        {"file": TPROC, "old": "class ThermalProcess(Component):\n", "new": "NO_LIMIT = -1.0\n\n\nclass ThermalProcess(Component):\n"}]},
+    {"name": "collect-guard-clause-on-empty-list", "file": UTIL, "old": _COLLECT, "new": _COLLECT.replace("    for comp in complist:\n", "    if not complist:\n        return variables.items()\n    for comp in complist:\n")},
+    {"name": "collect-skips-empty-mappings", "file": UTIL, "old": _COLLECT, "new": _COLLECT.replace("        for key, value in var_dict.items():\n", "        if not var_dict:\n            continue\n        for key, value in var_dict.items():\n")},
+    {"name": "registrations-from-module-table-of-namedtuple-rows-with-method", "edits": [
+        {"file": RR, "old": '        self.register("photon_desorption_option", (f"opt_uvd{group}", 1.0, vt.param))\n        self.register("H2_desorption_option", (f"opt_h2d{group}", 1.0, vt.param))\n', "new": '        for row in _SWITCHES:\n            self.register(row.name, row.bind(group))\n'},
+        {"file": RR, "old": "class RR07Grain(Grain):\n", "new": 'class _Switch(NamedTuple):\n    name: str\n    symbol: str\n    value: float\n\n    def bind(self, suffix):\n        return (self.symbol.format(g=suffix), self.value, vt.param)\n\n\n'
+         '_SWITCHES = (\n    _Switch("photon_desorption_option", "opt_uvd{g}", 1.0),\n    _Switch("H2_desorption_option", "opt_h2d{g}", 1.0),\n)\n\n\nclass RR07Grain(Grain):\n'},
+        {"file": RR, "old": "from __future__ import annotations\n", "new": "from __future__ import annotations\nfrom typing import NamedTuple\n"}]},
+]
+MUTANTS += [
+    {"name": "renderer-window-written-unconditionally", "edits": [
+        {"file": TLOADER, "old": _LT, "new": '        ltranges = [f"Tgas>={r.temp_min}" for r in reactions]\n'},
+        {"file": TLOADER, "old": _UT, "new": '        utranges = [f"Tgas<{r.temp_max}" for r in reactions]\n'}], "rules": ["R11"]},
+    {"name": "renderer-window-helper-on-dust-temperature", "edits": [
+        {"file": TLOADER, "old": _LT, "new": "        ltranges = [self._lower(r) for r in reactions]\n"},
+        {"file": TLOADER, "old": _AR, "new": '    def _lower(self, r):\n        if r.temp_min <= 0:\n            return ""\n        return f"Tdust>={r.temp_min}"\n\n' + _AR}], "rules": ["R11"]},
+    {"name": "collect-skips-a-kind-of-component", "file": UTIL, "old": _COLLECT, "new": _COLLECT.replace("        var_dict = getattr(comp, var_type)\n", '        if comp.__class__.__name__ == "Grain":\n            continue\n        var_dict = getattr(comp, var_type)\n'), "rules": ["R5"]},
+]
